@@ -310,6 +310,12 @@ pub fn run(tier: &str, seed: u64, replay: Option<String>) -> i32 {
                 vec![MEdit::ShareIdAcross { a: "spaces".into(), b: "wincons".into() }],
                 vec![MEdit::ShareIdAcross { a: "windows".into(), b: "walls".into() }],
                 vec![MEdit::ShareIdAcross { a: "thermal_bridges".into(), b: "spaces".into() }],
+                // an element whose own id is the nil id, every link to it following: it exists,
+                // so the model is closed
+                vec![MEdit::ShareIdAcross { a: "nil".into(), b: "spaces".into() }],
+                vec![MEdit::ShareIdAcross { a: "nil".into(), b: "walls".into() }],
+                vec![MEdit::ShareIdAcross { a: "nil".into(), b: "wallcons".into() }],
+                vec![MEdit::ShareIdAcross { a: "nil".into(), b: "wincons".into() }],
                 // windows moved far outside their walls
                 vec![MEdit::ScaleAll { gptr: "/windows/*/geometry/position/*".into(), factor: 25.0 }],
             ];
